@@ -533,6 +533,9 @@ func (s *Sorts) constTerm(c constant.Value, t types.Type) (string, bool) {
 		return fpLit(f, b.Kind() != types.Float32), true
 	}
 	if isBoolType(t) {
+		if c.Kind() != constant.Bool {
+			return "", false
+		}
 		if constant.BoolVal(c) {
 			return "true", true
 		}
